@@ -8,14 +8,14 @@ from itertools import pairwise
 
 import numpy as np
 
-from . import core, gem, hist
+from . import core, gem, hist, translate
 from .core import Outcome, PropertySpec, enc_list
 
 from gemdat.jumps import Jumps  # noqa: E402
 from gemdat.transitions import Transitions, _calculate_transition_events  # noqa: E402
 
 PID = 'C19'
-MODULES = ['GProofs.C19']
+MODULES = ['GProofs.C19', 'GProofs.C19Gen']
 EV_COLS = ['atom index', 'start site', 'destination site', 'start inner site', 'destination inner site', 'time']
 
 
@@ -266,6 +266,7 @@ SPEC = PropertySpec(
     modules=MODULES,
     run=run,
     replay=replay,
+    gen=translate.gen_for('FormulasC19'),
     rule=('one-atom default histories up to the stated length with n_parts = 1 .. #events, and random multi-atom (site, inner) '
           'histories (4-120 frames, events forced at the first / last possible frame in 40% of cases) with n_parts in {1,2,3,random,'
           '#events}, through Transitions.split / Jumps(part) on real objects; random Trajectory.split(n, equal_parts) on pool '
